@@ -3,6 +3,9 @@ CONSTANTS N = 3
  Provides = TRUE
  Upper = TRUE
  EmitMode = "all"
+ Siblings = FALSE
+ MinHidden = 0
+ Focus = "all"
  SliceK = 1
  SliceI = 0
 SPECIFICATION SpecQ
